@@ -17,6 +17,7 @@ type CExpr struct {
 	Int  *big.Int
 	Str  string
 	Vars []QVar
+	Pats [][]*CExpr // quantifier patterns: {e1, e2} {e3}
 	Src  string
 }
 
@@ -220,9 +221,21 @@ func (p *clex) expr() *CExpr {
 				break
 			}
 		}
+		var pats [][]*CExpr
+		for p.accept("{") {
+			var grp []*CExpr
+			for {
+				grp = append(grp, p.expr())
+				if p.accept("}") {
+					break
+				}
+				p.expect(",")
+			}
+			pats = append(pats, grp)
+		}
 		p.expect("::")
 		body := p.expr()
-		return &CExpr{Op: t.s, Vars: vars, Args: []*CExpr{body}}
+		return &CExpr{Op: t.s, Vars: vars, Pats: pats, Args: []*CExpr{body}}
 	}
 	return p.iff()
 }
